@@ -895,10 +895,13 @@ class OptionalMethod(DeserializationMethod):
         try:
             return self.value_method.deserialize(data)
         except ValidationError as err:
-            if self.coercer is not None and self.coercer(NoneType, data) is None:
-                return None
-            else:
-                raise merge_errors(err, bad_type(data, NoneType))
+            if self.coercer is not None:
+                try:
+                    if self.coercer(NoneType, data) is None:
+                        return None
+                except ValidationError:  # data cannot be coerced to None
+                    pass
+            raise merge_errors(err, bad_type(data, NoneType))
 
 
 @dataclass
